@@ -290,9 +290,10 @@ class Event:
 
 
 class Path:
-    __slots__ = ("conds", "events", "ret", "end", "store", "end_bb", "blocks")
+    __slots__ = ("conds", "events", "ret", "end", "store", "end_bb", "blocks", "pre_loop")
 
-    def __init__(self, conds, events, ret, end, store, end_bb, blocks):
+    def __init__(self, conds, events, ret, end, store, end_bb, blocks, pre_loop=None):
+        self.pre_loop = pre_loop or {}
         self.conds = conds
         self.events = events
         self.ret = ret
@@ -317,7 +318,7 @@ class Frame:
 
 class State:
     __slots__ = ("store", "conds", "events", "frames", "active", "decided", "excluded", "nfid",
-                 "blocks", "nhv")
+                 "blocks", "nhv", "pre_loop")
 
     def clone(self):
         s = State()
@@ -337,6 +338,7 @@ class State:
         s.nfid = self.nfid
         s.blocks = list(self.blocks)
         s.nhv = self.nhv
+        s.pre_loop = self.pre_loop
         return s
 
 
@@ -385,6 +387,7 @@ class SymExec:
         self.entry_store = entry_store
         self.nevents = 0
         self.types = {}
+        self._modset = {}
         self.mut_params = set()
         for i in range(1, body.argc + 1):
             self.types[("param", body.local_name(i))] = body.locals[i]["ty"]
@@ -399,24 +402,60 @@ class SymExec:
             loops = cfgmod.natural_loops(body)
             self._loops[k] = loops
             w = {}
+            # pointer locals with a single `&mut place` definition (reborrow chains)
+            ptrdefs = {}
+            for blk in body.blocks:
+                for s in blk["stmts"]:
+                    if s["k"] == "assign" and not s["pl"]["p"]:
+                        if s["rv"]["k"] in ("ref", "rawptr") and s["rv"]["mut"]:
+                            ptrdefs.setdefault(s["pl"]["l"], []).append(s["rv"]["pl"])
+                        else:
+                            ptrdefs.setdefault(s["pl"]["l"], []).append(None)
+                if blk["term"]["k"] == "call" and not blk["term"]["dest"]["p"]:
+                    ptrdefs.setdefault(blk["term"]["dest"]["l"], []).append(None)
+            ptrmap = {l: d[0] for l, d in ptrdefs.items() if len(d) == 1 and d[0] is not None}
             for h, blks in loops.items():
-                locs = set()
+                locs = {}
                 mem = False
+
+                def add(pl, whole=False, depth=0):
+                    nonlocal mem
+                    path = []
+                    projs = pl["p"]
+                    target = pl["l"]
+                    if projs and projs[0] == "deref":
+                        l = pl["l"]
+                        if 1 <= l <= body.argc and body.locals[l]["ty"].startswith("&mut"):
+                            target = ("P", body.local_name(l))
+                            projs = projs[1:]
+                        elif 1 <= l <= body.argc and body.locals[l]["ty"].startswith("&"):
+                            return          # shared reference parameter: cannot be written through
+                        elif l in ptrmap and depth < 4:
+                            base = ptrmap[l]
+                            add({"l": base["l"], "p": list(base["p"]) + list(projs[1:])}, whole, depth + 1)
+                            return
+                        else:
+                            mem = True
+                            return
+                    for p in projs:
+                        if p == "deref":
+                            mem = True
+                            break
+                        if isinstance(p, dict) and "f" in p:
+                            path.append(("f", p["n"]))
+                        else:
+                            break
+                    locs.setdefault(target, set()).add(() if whole else tuple(path))
                 for b in blks:
                     blk = body.blocks[b]
                     for s in blk["stmts"]:
                         if s["k"] in ("assign", "setdiscr"):
-                            pl = s["pl"]
-                            if "deref" in [p for p in pl["p"] if isinstance(p, str)]:
-                                mem = True
-                            locs.add(pl["l"])
+                            add(s["pl"])
                             if s["k"] == "assign" and s["rv"]["k"] in ("ref", "rawptr") and s["rv"]["mut"]:
-                                locs.add(s["rv"]["pl"]["l"])
-                                if "deref" in [p for p in s["rv"]["pl"]["p"] if isinstance(p, str)]:
-                                    mem = True
+                                add(s["rv"]["pl"])
                     t = blk["term"]
                     if t["k"] == "call":
-                        locs.add(t["dest"]["l"])
+                        add(t["dest"])
                 w[h] = (locs, mem)
             self._loopw[k] = w
         return self._loops[k], self._loopw[k]
@@ -454,6 +493,7 @@ class SymExec:
         st.nfid = 1
         st.blocks = []
         st.nhv = 0
+        st.pre_loop = {}
         f = Frame(self.body, 0, self.cgen, self.tgen)
         st.frames = [f]
         b = self.body
@@ -479,7 +519,7 @@ class SymExec:
 
     def finish(self, st, end, ret=None):
         self.paths.append(Path(st.conds, st.events, ret, end, st.store, st.frames[0].bb if st.frames else -1,
-                               st.blocks))
+                               st.blocks, st.pre_loop))
 
     # ---------------------------------------------------------------- places
     def local_val(self, st, fr, l):
@@ -580,7 +620,10 @@ class SymExec:
         if "str" in op:
             return ("str", op["str"])
         if "dec" in op:
-            return self.decode(op["dec"])
+            d = self.decode(op["dec"])
+            if ty.startswith("&"):
+                return ("ref", d)
+            return d
         if "item" in op:
             item = op["item"]
             iargs = tuple(op.get("iargs") or ())
@@ -699,13 +742,35 @@ class SymExec:
             st.active.add(key)
             locs, mem = loopw[bb]
             tag = fr.body.key.rsplit("::", 1)[-1]
-            for l in sorted(locs):
-                root = ("L", fr.fid, l)
-                old = st.store.get(root)
-                if old is not None and old[0] in ("iter", "iter*"):
-                    st.store[root] = ("iter*", old[1])
+            snap = {}
+            for l in sorted(locs, key=repr):
+                if isinstance(l, tuple):
+                    root = l
+                    lname = "*" + l[1]
                 else:
-                    st.store[root] = ("hv", tag, fr.body.local_name(l), bb)
+                    root = ("L", fr.fid, l)
+                    lname = fr.body.local_name(l)
+                paths = locs[l]
+                if () in paths:
+                    paths = {()}
+                for path in sorted(paths):
+                    old = st.store.get(root)
+                    if old is not None and path:
+                        oldv = self.ops.project(old, path)
+                    else:
+                        oldv = old
+                    snap[(lname, path)] = oldv
+                    if oldv is not None and oldv[0] in ("iter", "iter*"):
+                        newv = ("iter*", oldv[1])
+                    else:
+                        newv = ("hv", tag, lname + "".join("." + h[1] for h in path), bb)
+                    if not path:
+                        st.store[root] = newv
+                    else:
+                        base = old if old is not None else ("undef", root)
+                        st.store[root] = self.ops.update(base, path, newv)
+            st.pre_loop = dict(st.pre_loop)
+            st.pre_loop[(fr.fid, bb)] = snap
             if mem:
                 for root in list(st.store):
                     if root[0] == "P" and root[1] in self.mut_params:
@@ -787,6 +852,17 @@ class SymExec:
                         self.finish(st, "loopback")
                         return
                     continue
+                imp = self.implied(st, d)
+                if imp is not None:
+                    tgt = t["otherwise"]
+                    for v, b2 in arms:
+                        if v == imp:
+                            tgt = b2
+                            break
+                    if not self.goto(st, fr, tgt):
+                        self.finish(st, "loopback")
+                        return
+                    continue
                 if d in st.decided:
                     val = st.decided[d]
                     tgt = t["otherwise"]
@@ -816,6 +892,7 @@ class SymExec:
                     s2 = st.clone()
                     s2.decided[d] = v
                     s2.conds.append((d, v, bb, len(st.frames) - 1))
+                    self.propagate(s2, d, v)
                     nstates.append((s2, b2))
                 if other_ok:
                     s2 = st.clone()
@@ -824,6 +901,7 @@ class SymExec:
                     if d[0] != "int" and self.is_bool(fr, t) and len(arms) == 1:
                         s2.decided[d] = 1 - arms[0][0]
                         s2.conds.append((d, 1 - arms[0][0], bb, len(st.frames) - 1))
+                        self.propagate(s2, d, 1 - arms[0][0])
                     else:
                         s2.conds.append((d, ("not", tuple(sorted(vals))), bb, len(st.frames) - 1))
                     nstates.append((s2, other))
@@ -841,6 +919,45 @@ class SymExec:
                 continue
             self.finish(st, "unknown-term")
             return
+
+    def eq_enum(self, d):
+        """Eq/Ne(X, enum const) -> (X, discriminant value, is_eq)"""
+        if d[0] == "bin" and d[1] in ("Eq", "Ne"):
+            a, b = d[2], d[3]
+            if b[0] == "enum" and a[0] != "enum":
+                k = self.ops.discr_of(b[1], b[2])
+                if k is not None:
+                    return a, k, d[1] == "Eq"
+            if a[0] == "enum" and b[0] != "enum":
+                k = self.ops.discr_of(a[1], a[2])
+                if k is not None:
+                    return b, k, d[1] == "Eq"
+        return None
+
+    def implied(self, st, d):
+        """value of condition d implied by earlier decisions, or None"""
+        r = self.eq_enum(d)
+        if r is None:
+            return None
+        x, k, is_eq = r
+        dx = ("discr", x)
+        if dx in st.decided:
+            same = st.decided[dx] == k
+            return int(same == is_eq)
+        if k in st.excluded.get(dx, ()):
+            return int(not is_eq)
+        return None
+
+    def propagate(self, st, d, v):
+        r = self.eq_enum(d)
+        if r is None or not isinstance(v, int):
+            return
+        x, k, is_eq = r
+        dx = ("discr", x)
+        if bool(v) == is_eq:
+            st.decided.setdefault(dx, k)
+        else:
+            st.excluded[dx] = frozenset(st.excluded.get(dx, frozenset()) | {k})
 
     def is_bool(self, fr, t):
         return t.get("dty") == "bool"
@@ -909,14 +1026,17 @@ class SymExec:
                 impure = []
                 for a in args:
                     self.mut_ptrs(a, impure)
+                # shared references to locals are passed by value in the expression (the callee can only read them)
+                vargs = tuple(("ref", self.load(st, a[1], a[2])) if (a[0] == "ptr" and not a[3] and a[1][0] == "L") else a
+                              for a in args)
                 if impure:
                     # a call that may mutate through its arguments is not a pure expression: number repeats
-                    base = ("call", key, args, ct)
+                    base = ("call", key, vargs, ct)
                     nrep = sum(1 for e0 in st.events if e0.kind == "call" and e0.ret is not None
                                and e0.ret[:4] == base)
-                    val = ("call", key, args, ct, nrep)
+                    val = ("call", key, vargs, ct, nrep)
                 else:
-                    val = ("call", key, args, ct) if ct else ("call", key, args)
+                    val = ("call", key, vargs, ct) if ct else ("call", key, vargs)
                 self.effects(st, args, ev)
         ev.ret = val
         st.events.append(ev)
@@ -973,19 +1093,109 @@ class SymExec:
             for _, x in v[4]:
                 self.mut_ptrs(x, out, depth + 1)
 
+    def modset(self, name):
+        """top-level fields of a `&mut` struct argument that `name` (transitively) may write: {param index: set(fields) or None}"""
+        if name in self._modset:
+            return self._modset[name]
+        self._modset[name] = {}          # recursion guard: optimistic, refined below
+        b = self.facts.bodies.get(name)
+        if b is None:
+            self._modset[name] = None
+            return None
+        res = {}
+        mutparams = {i for i in range(1, b.argc + 1) if b.locals[i]["ty"].startswith("&mut")}
+        # local pointer aliases of parameter sub-places:  _x = &mut (*p).f...
+        alias = {}
+        unknown = False
+
+        def base_of(pl):
+            l = pl["l"]
+            projs = pl["p"]
+            if l in mutparams and projs and projs[0] == "deref":
+                flds = [q["n"] for q in projs[1:] if isinstance(q, dict) and "f" in q]
+                return l, (flds[0] if flds else None)
+            if l in alias and projs and projs[0] == "deref":
+                return alias[l]
+            return None
+        for blk in b.blocks:
+            if blk["cleanup"]:
+                continue
+            for s in blk["stmts"]:
+                if s["k"] != "assign":
+                    continue
+                tgt = base_of(s["pl"])
+                if tgt is not None:
+                    res.setdefault(tgt[0], set()).add(tgt[1])
+                rv = s["rv"]
+                if rv["k"] in ("ref", "rawptr") and rv["mut"]:
+                    src = base_of(rv["pl"])
+                    if src is not None and not s["pl"]["p"]:
+                        alias[s["pl"]["l"]] = src
+                    elif rv["pl"]["l"] in mutparams and not rv["pl"]["p"]:
+                        pass
+                elif rv["k"] == "use" and rv["op"]["k"] in ("copy", "move") and not s["pl"]["p"]:
+                    sl = rv["op"]["pl"]["l"]
+                    if not rv["op"]["pl"]["p"] and sl in alias:
+                        alias[s["pl"]["l"]] = alias[sl]
+                    elif not rv["op"]["pl"]["p"] and sl in mutparams:
+                        alias[s["pl"]["l"]] = (sl, "*")
+            t = blk["term"]
+            if t["k"] == "call":
+                cn = callee_name(t)
+                for ai, a in enumerate(t["args"]):
+                    if a["k"] not in ("copy", "move") or a["pl"]["p"]:
+                        continue
+                    al = a["pl"]["l"]
+                    tgt = alias.get(al)
+                    if tgt is None and al in mutparams:
+                        tgt = (al, "*")
+                    if tgt is None:
+                        continue
+                    if not b.locals[al]["ty"].startswith("&mut"):
+                        continue
+                    if tgt[1] == "*":
+                        sub = self.modset(cn) if cn in self.facts.bodies else None
+                        if sub is None or sub.get(ai + 1) is None and (ai + 1) in (sub or {}):
+                            res.setdefault(tgt[0], set()).add(None)
+                        else:
+                            for fl in (sub.get(ai + 1) or set()):
+                                res.setdefault(tgt[0], set()).add(fl)
+                    else:
+                        res.setdefault(tgt[0], set()).add(tgt[1])
+        out = {}
+        for i in mutparams:
+            flds = res.get(i, set())
+            out[i] = None if None in flds else set(flds)
+        self._modset[name] = out
+        return out
+
     def effects(self, st, args, ev):
-        ptrs = []
-        for a in args:
+        ms = self.modset(ev.name) if ev.name in self.facts.bodies else None
+        k = 0
+        for ai, a in enumerate(args):
+            ptrs = []
             self.mut_ptrs(a, ptrs)
-        for i, p in enumerate(ptrs):
-            root, path = p[1], p[2]
-            old = self.load(st, root, path)
-            if old[0] in ("iter", "iter*"):
-                new = ("iter*", old[1])
-            else:
-                new = ("post", ev.name, ev.idx, i)
-            base = st.store.get(root, ("undef", root))
-            st.store[root] = self.ops.update(base, path, new) if path else new
+            for p in ptrs:
+                root, path = p[1], p[2]
+                old = self.load(st, root, path)
+                fields = None
+                if ms is not None and a is p:
+                    fields = ms.get(ai + 1)
+                if old[0] in ("iter", "iter*"):
+                    new = ("iter*", old[1])
+                    base = st.store.get(root, ("undef", root))
+                    st.store[root] = self.ops.update(base, path, new) if path else new
+                elif fields is not None:
+                    for fl in sorted(fields):
+                        # the callee's version of the pointee, projected on the field it may write
+                        new = ("field", ("post", ev.name, ev.idx, k), fl)
+                        base = st.store.get(root, ("undef", root))
+                        st.store[root] = self.ops.update(base, path + (("f", fl),), new)
+                else:
+                    new = ("post", ev.name, ev.idx, k)
+                    base = st.store.get(root, ("undef", root))
+                    st.store[root] = self.ops.update(base, path, new) if path else new
+                k += 1
 
     # ---------------------------------------------------------------- models
     def model(self, st, fr, name, args, targs, ev):
@@ -1038,6 +1248,18 @@ class SymExec:
                 return a[2][0] if name.endswith("file") else a[2][1]
             return None
         # core
+        if name.endswith("core::clone::Clone>::clone") and len(args) == 1:
+            db = self.facts.bodies.get(name)
+            if db is None or (db.j["sp"]["exp"] and db.crate == "cozy_chess_types"):
+                a = args[0]
+                if a[0] in ("ptr", "ref"):
+                    return self.deref(st, a)
+        if (name.endswith("core::cmp::PartialEq>::eq") or name.endswith("core::cmp::PartialEq>::ne")) and len(args) == 2:
+            db = self.facts.bodies.get(name)
+            if db is not None and db.j["sp"]["exp"] and db.crate == "cozy_chess_types":
+                a0 = self.deref(st, args[0]) if args[0][0] in ("ptr", "ref") else args[0]
+                a1 = self.deref(st, args[1]) if args[1][0] in ("ptr", "ref") else args[1]
+                return self.ops.bin("Eq" if name.endswith("::eq") else "Ne", a0, a1)
         if name == "core::mem::replace" and args[0][0] == "ptr":
             old = self.load(st, args[0][1], args[0][2])
             self.store_ptr(st, args[0], args[1])
